@@ -18,7 +18,7 @@ CLAIMED = {
          "As C01; 'no reporter call ever again' excludes allocations and the synchronous forwarding of Timer.Record on old handles (C10)."),
  "C09": ("6/C09", "deterministic simulation: 2-4 tasks released together perform overlapping first uses while others record and a pass runs; identity + allocate-once + conservation oracle",
          "Seeded search over interleavings of concurrent first-use registrations of the same counters, gauges, timers, histograms and child scopes (1-64 registry shards) with recording on registered metrics and report passes; all callers must receive the same object, a cached reporter sees at most one Allocate per (name, tags, kind) and one bucket allocation per bucket, everything recorded through any handle is delivered, no panic/deadlock. Exploration.",
-         "As C01. Data races between plain memory accesses are covered by the -race slice of the check only (happens-before based, schedule dependent)."),
+         "As C01. Data races between plain memory accesses are covered by the -race slice of the check only (happens-before based, schedule dependent); half of the race-slice runs use the workloads of sibling properties (C07, C08, C01, C02, C11, C10: Close / re-request cycles, snapshots, stopwatches), where only a race report counts."),
  "C10": ("6/C10", "deterministic simulation: Record/Start/Stop/Exec histories interleaved with report passes on a fake clock; synchronous-forwarding and elapsed-time oracle",
          "Seeded search over record histories on timers in several scopes (unique and extreme durations) interleaved with report passes, on plain, cached, plain+cached and reporter-less test scopes; every Record must produce exactly one delivery (through the cached handle whenever a cached reporter is configured) with its value, name and tags, made by the recording task before Record returns, passes deliver no timer values, stopwatches record the fake-clock time between Start and Stop, an instrumented call runs once, returns its error, records one latency and bumps exactly one counter. Exploration.",
          "As C01; stopwatch bounds use the simulated clock read before/after Start and Stop."),
@@ -48,7 +48,7 @@ CLAIMED = {
          "As C12."),
  "C14": ("6/C14", "deterministic simulation: producers, Flush and 1-3 Close callers racing on a tiny queue with send faults; panic/deadlock/leak oracle (+ race-detector slice)",
          "Seeded interleavings of Allocate/Report on shared handles, Flush and concurrent Close callers (plus calls after Close) with queue sizes 1-4 and destinations that fail or are closed mid-run; producers that keep reporting until Close has returned (they never pause); no task may panic (send on closed channel), every task completes (deadlock = no enabled task after bounded clock advances, livelock = no completion under fair scheduling), exactly one Close returns nil, nothing goes on the wire after Close returned, the reporter's goroutines have exited. Exploration.",
-         "As C12. The data-race clause is covered only by the -race slice (happens-before based, schedule dependent)."),
+         "As C12. The data-race clause is covered only by the -race slice (happens-before based, schedule dependent); half of its runs use the C13 and C12 workloads."),
  "C15": ("6/C15", "deterministic simulation with fault sequences: Write/WriteByte/WriteString/Flush/Close sequences with oversize writes, send errors, closed sockets and abandoned messages against a byte-buffer reference model",
          "Seeded call sequences on the single and multi destination UDP transports with chunk sizes around the 65000 byte limit and faults at seeded positions (refused write, failing send, socket closed by the environment, writer abandoning a message after an error); each Flush must produce exactly one datagram with exactly the bytes accepted since the previous Flush and leave the buffer empty whether or not the send failed, refused writes send nothing, the next message arrives complete and alone, the multi transport fans out when no destination fails and, when one does (faults may be aimed at a single destination), never sends any destination anything but exactly one Flush's message; Close is idempotent, use after Close errors and sends nothing. fault_enumeration-style exploration of a sequential API; no interleavings are involved (the transport is not used concurrently).",
          "The socket is a stub (errors are 'this send returns an error'). Known finding D9 (stale prefix after an abandoned message) is recognised by its signature and reported as KNOWN-FINDING."),
